@@ -407,17 +407,26 @@ def run_pristine(histories, repo):
     return dict(zip(keys, res))
 
 
-def cross_seed_diffs(histories, base, other, seed, fields_write=("out_sha", "err"), want=("write", "read", "build", "edit")):
-    """compare two runs of the same histories under different hash seeds"""
+def cross_seed_diffs(histories, base, other, seed, want=("write", "read", "build", "edit")):
+    """compare two runs of the same histories under different hash seeds.
+    want == ("write",)  (C09): a write whose input sets have the same snapshots in both processes must return the same
+                               bytes / raise the same exception class
+    otherwise           (C10): the snapshots of all sets after every op must be the same"""
     out = []
+    c09 = tuple(want) == ("write",)
     for hi, (h, a, b) in enumerate(zip(histories, base, other)):
         for i, (op, x, y) in enumerate(zip(h, a, b)):
             if op["op"] not in want:
                 continue
-            if x.get("sets") != y.get("sets") or x.get("err") != y.get("err") or x.get("out_sha") != y.get("out_sha"):
-                out.append({"history": hi, "i": i, "op": op["op"], "seed": seed,
-                            "what": "sets" if x.get("sets") != y.get("sets") else
-                            ("out" if x.get("out_sha") != y.get("out_sha") else "err")})
+            if c09:
+                if x.get("sets") != y.get("sets"):
+                    break          # the inputs already differ between the processes: a matter of reading (C10)
+                if x.get("err") != y.get("err") or x.get("out_sha") != y.get("out_sha"):
+                    out.append({"history": hi, "i": i, "op": op["op"], "seed": seed,
+                                "what": "out" if x.get("out_sha") != y.get("out_sha") else "err"})
+                    break
+            elif x.get("sets") != y.get("sets") or (op["op"] in ("read", "build") and x.get("err") != y.get("err")):
+                out.append({"history": hi, "i": i, "op": op["op"], "seed": seed, "what": "sets"})
                 break
     return out
 
@@ -480,7 +489,7 @@ def check_batch(histories, repo, seed_plan, prop, want_ops):
         idxs = sorted(d)
         for x in cross_seed_diffs([histories[i] for i in idxs], [base[i] for i in idxs], [d[i] for i in idxs], seed,
                                   want=want_ops):
-            violations.append((idxs[x["history"]], x["i"], 7 if x["op"] == "write" else 8,
+            violations.append((idxs[x["history"]], x["i"], 7 if prop == "C09" else 8,
                                {"hashseed": seed, "differs": x["what"]}))
     return {"pristine": pristine, "results": results, "models": models, "disagreements": disagreements,
             "violations": violations, "by_seed": by_seed}
